@@ -12,6 +12,10 @@
      a[5] = [r]        order of the prime-order subgroup
      a[6..] operands.
    flag_type 0 = EmptyFlags, 1 = SWFlags (0 positive, 1 infinity, 2 negative), 2 = TEFlags (0, 1).
+   Ordering cases (op 9, f_cmp): a[0..2] as for field cases, a[3] = x, a[4] = y; result
+     [Ord::cmp x y]; [PartialOrd::partial_cmp x y]; [x < y; x <= y; x > y; x >= y]   (0 Less, 1 Equal, 2 Greater)
+     all derived from the one comparison the codecs take as parameter (Exec.quad_cmp / cubic_cmp).
+   Point cases: deg = 3 is Fp[u]/(u^3 - nr).
    Errors: [1; kind] with kind as in Bytes.v. *)
 From V Require Import Base.Field C09.Bytes C09.FpCodec C09.PointCodec C09.Exec.
 
@@ -29,18 +33,20 @@ Record Tower : Type := mkTower {
   tw_codec : Codec tw_T;
   tw_of : list Z -> tw_T;
   tw_to : tw_T -> list Z;
-  tw_deg : nat
+  tw_deg : nat;
+  tw_cmp : tw_T -> tw_T -> comparison
 }.
 Definition tower_fp (N : nat) (p : Z) : Tower :=
-  mkTower Z (fp_codec N p) (fun l => hd 0 l) (fun v => [v]) 1.
+  mkTower Z (fp_codec N p) (fun l => hd 0 l) (fun v => [v]) 1 Z.compare.
 Definition tower_quad (B : Tower) : Tower :=
   mkTower (tw_T B * tw_T B) (quad_codec (tw_codec B))
           (fun l => (tw_of B l, tw_of B (skipn (tw_deg B) l)))
-          (fun x => tw_to B (fst x) ++ tw_to B (snd x)) (2 * tw_deg B).
+          (fun x => tw_to B (fst x) ++ tw_to B (snd x)) (2 * tw_deg B) (quad_cmp (tw_cmp B)).
 Definition tower_cubic (B : Tower) : Tower :=
   mkTower (tw_T B * tw_T B * tw_T B) (cubic_codec (tw_codec B))
           (fun l => (tw_of B l, tw_of B (skipn (tw_deg B) l), tw_of B (skipn (2 * tw_deg B) l)))
-          (fun x => tw_to B (fst (fst x)) ++ tw_to B (snd (fst x)) ++ tw_to B (snd x)) (3 * tw_deg B).
+          (fun x => tw_to B (fst (fst x)) ++ tw_to B (snd (fst x)) ++ tw_to B (snd x)) (3 * tw_deg B)
+          (cubic_cmp (tw_cmp B)).
 
 Definition sw_code (f : swflag) : Z := match f with YIsPositive => 0 | PointAtInfinity => 1 | YIsNegative => 2 end.
 Definition sw_of_code (c : Z) : swflag := match c with 1 => PointAtInfinity | 2 => YIsNegative | _ => YIsPositive end.
@@ -83,6 +89,11 @@ Section RunField.
            end
     | 4 => out_res (c_decp C payload) (fun r =>
              [tw_to W (fst r); [zlen payload - zlen (snd r)]; bytes_of (c_encp C (fst r)) (fun b => b)])
+    | 9 => let c := tw_cmp W (tw_of W payload) (tw_of W (arg 4 a)) in
+           let code := match c with Lt => 0 | Eq => 1 | Gt => 2 end in
+           let lt := match c with Lt => 1 | _ => 0 end in
+           let le := match c with Gt => 0 | _ => 1 end in
+           ok [[code]; [code]; [lt; le; 1 - le; 1 - lt]]
     | _ => unsupported
     end.
 End RunField.
@@ -161,7 +172,7 @@ End RunPoint.
 Definition run_C09 (op : Z) (a : list (list Z)) : list (list Z) :=
   let N := Z.to_nat (argz 0 1 a) in
   let p := argz 1 0 a in
-  if op <=? 4 then
+  if (op <=? 4) || (op =? 9) then
     match tower_of N p (argz 2 0 a) with
     | Some W => run_field W op a
     | None => unsupported
@@ -171,5 +182,7 @@ Definition run_C09 (op : Z) (a : list (list Z)) : list (list Z) :=
     | 1 => run_point (ZpOps p) (tower_fp N p) (fun x => x) (fun x => x) Z.compare op a
     | 2 => run_point (QuadOps (ZpOps p) (argz 2 0 a mod p)) (tower_quad (tower_fp N p))
                      (fun x => x) (fun x => x) (quad_cmp Z.compare) op a
+    | 3 => run_point (CubicOps (ZpOps p) (argz 2 0 a mod p)) (tower_cubic (tower_fp N p))
+                     (fun x => x) (fun x => x) (cubic_cmp Z.compare) op a
     | _ => unsupported
     end.
